@@ -181,11 +181,12 @@ def _scan_harnesses():
                     unit = u
                     break
             info = {'units': [unit] if unit else [], 'kani': False,
-                    'props': {'debug': ['C17'], 'drop': ['C17'], 'clone': ['C16', 'C01'], 'indep': ['C16'], 'resume': ['C09', 'C14', 'C01']}.get(kind, []),
+                    'props': {'debug': ['C17'], 'drop': ['C17'], 'clone': ['C16', 'C01'], 'indep': ['C16'], 'resume': ['C09', 'C14', 'C01'], 'parks': ['C07', 'C01', 'C04', 'C06', 'C03', 'C09', 'C10']}.get(kind, []),
                     'bounds': {'debug': 'Debug text of two instances with different key / IV / history / position is equal (native random search, toy invertible cipher)',
                                'drop': 'feature zeroize: after drop no 8-byte window of the exported state is left in the object storage (native, 16-byte toy cipher)',
                                'clone': 'clone after a random history; original and clone interleaved equal two fresh replays, incl. positions and seeks (native)',
                                'indep': 'instances over different block sizes used in one process do not influence each other (native)',
+                               'parks': 'keystream of up to 7 blocks through the backend\'s parallel entry point (any width incl. 1) == block-at-a-time keystream, same generator state afterwards (native, toy invertible cipher)',
                                'resume': 'export at a random cut (block / byte), import into a fresh instance, continue == uninterrupted run; encryptor and decryptor states equal; public chaining value (native, toy invertible cipher)'}.get(kind, n)}
         out[n] = info
     out.update(HARNESS_OVERRIDES)
@@ -253,7 +254,7 @@ PROP_HARNESS = {
             'thorough': ['ctr_32be_b4w2_n3', 'ctr_32le_b4w2_n3', 'ctr_32be_b8w2_n3', 'ctr_32le_b8w3_n3', 'ctr_64be_b8w2_n3', 'ctr_64le_b8w3_n3',
                          'ctr_64be_b16w2_n3', 'ctr_64le_b16w2_n3', 'ctr_128be_b16w2_n3', 'ctr_128le_b16w2_n3', 'ctr_128be_b32w2_n2', 'ctr_128le_b32w2_n2']},
     'C05': {'quick': [],
-            'thorough': ['cts_cbc1enc_b2w2_n3', 'cts_cbc2enc_b2w2_n3', 'cts_cbc3enc_b2w2_n3', 'cts_cbc1dec_b2w2_n3', 'cts_cbc2dec_b2w2_n3',
+            'thorough': ['cts_cbc1enc_b2w2_n3', 'cts_cbc2enc_b2w2_n3', 'cts_cbc3enc_b2w2_n3', 'cts_cbc1dec_b2w2_n3', 'cts_cbc2dec_b2w2_n3', 'cts_cbc3dec_b2w2_n3',
                          'cts_ecb1enc_b2w2_n3', 'cts_ecb2enc_b2w2_n3', 'cts_ecb3enc_b2w2_n3', 'cts_ecb1dec_b2w2_n3', 'cts_ecb2dec_b2w2_n3', 'cts_ecb3dec_b2w2_n3',
                          'cts_cbc1enc_b3w2_n3', 'cts_cbc2enc_b3w2_n3', 'cts_cbc3enc_b3w2_n3', 'cts_ecb1enc_b3w2_n3', 'cts_ecb2enc_b3w2_n3', 'cts_ecb3enc_b3w2_n3',
                          'cts_ecb1dec_b3w2_n3', 'cts_ecb2dec_b3w2_n3', 'cts_ecb3dec_b3w2_n3'], 'timeout': 3000},
